@@ -21,7 +21,7 @@ RULE = ("one logical case per test (values on the dyadic grid, exactly represent
         "list or tuple; valid_range_test with and without dtype=. oracle (metamorphic): flags under every carrier equal the "
         "flags under the canonical carrier (float64 ndarray + datetime64[ns] + lists). non-trivial: the case contains a "
         "missing value (so the carriers differ in how missing is encoded) or the test takes a time axis")
-ASSUMPTIONS = ["dask time arrays and non-UTC time zones are outside the statement and not generated",
+ASSUMPTIONS = ["dask time arrays are not generated; time zones other than UTC are (America/New_York, as python datetimes and as pandas objects)",
                "pressure_increasing_test documents no missing-data handling: it gets fully present series",
                "valid_range_test on sequences without a dtype is called with dtype= as its docstring asks"]
 
@@ -137,7 +137,13 @@ def check_valid(tc, rec):
             variants.append((k, carriers.data(xs, k, tc.get("junk", 0.0)), {}))
         for k in ["list_none", "list_nan", "tuple_nan", "object"]:
             variants.append((k + "+dtype", carriers.data(xs, k), {"dtype": np.float64}))
-        # an int array with float / absent bounds is outside the docstring's precondition (bounds of the data's type)
+        # plain sequences without dtype= (the type is guessed), with the span as given and with an absent bound written
+        # as an infinite one
+        if not case.get("int_data"):
+            inf_span = [(-np.inf if case["lo"] is None else span[0]), (np.inf if case["hi"] is None else span[1])]
+            for k in ["list_none", "list_nan", "tuple_nan"]:
+                variants.append((k + " (type guessed)", carriers.data(xs, k), {}))
+                variants.append((k + " (type guessed, infinite for absent bounds)", carriers.data(xs, k), {"_span": inf_span}))
     else:
         import pandas as pd
         frac = any(v is not None and float(v) != int(v) for v in case["x"])
@@ -178,9 +184,13 @@ def check_valid(tc, rec):
                 rec.fail(site, f"carrier {label}: flags differ from canonical at index {i} ({base[i]} -> {got[i]})",
                          expected=base, got=got, index=i, carrier=label)
     for label, data, extra in variants:
-        for sp in (span, tuple(span) if isinstance(span, list) else list(span)):
+        extra = dict(extra)
+        span_v = extra.pop("_span", span)
+        for sp in (span_v, tuple(span_v) if isinstance(span_v, list) else list(span_v)):
             try:
-                r = axds.valid_range_test(data, sp, **kw, **extra)
+                with warnings.catch_warnings():
+                    warnings.simplefilter("ignore")
+                    r = axds.valid_range_test(data, sp, **kw, **extra)
             except Exception as e:
                 rec.fail(site, f"carrier {label}: raised {type(e).__name__}: {str(e)[:150]}", carrier=label, raised=True,
                          exc=type(e).__name__, got=f"{type(e).__name__}: {str(e)[:150]}")
